@@ -38,8 +38,9 @@ META = {
                   'translator; cross-checked by the differential run), the hand-written micro-step structure (atomicity of '
                   'atomic.LoadUintptr/AddUintptr assumed), the kernel (a granted mmap is fresh, RWX; checked per request from '
                   '/proc/self/maps, by writing and by executing), GetFuncSize giving the placeholder extent (checked against pclntab '
-                  'each run). Hypothesis of the concurrent theorem: requesters x reserve size < 2^63 (no 64-bit wrap). Negative int '
-                  'lengths are outside "request sizes".',
+                  'each run). Hypothesis of the concurrent theorem: requesters x reserve size < 2^63 (no 64-bit wrap). Request '
+                  'lengths range over the whole int domain; space.go (Acquire, Write) is matched literally by the extractor and run by the probe, '
+                  'its model is a hand transcription. Cross-path disjointness assumes the kernel never hands out overlapping live mappings.',
 }
 
 PKG = 'internal/bytecode/stub'
@@ -81,8 +82,28 @@ def run_impl(binary, lines, tag, timeout=600):
     ops = os.path.join(C.BUILD, f'{tag}.ops')
     outp = os.path.join(C.BUILD, f'{tag}.impl')
     open(ops, 'w').write('\n'.join(lines) + '\n')
-    rc, log = C.run_probe(binary, 'TestVerifC20', ops, outp, timeout=timeout)
+    scrub = {'GOOM_DEBUG': '', 'GOTRACEBACK': 'single', 'GODEBUG': '', 'GOMAXPROCS': ''}     # goom / runtime knobs of the caller's shell
+    import subprocess
+    try:
+        rc, log = C.run_probe(binary, 'TestVerifC20', ops, outp, env=scrub, timeout=timeout)
+    except subprocess.TimeoutExpired:
+        rc, log = 124, f'probe process exceeded {timeout}s'
     obs = C.read_indexed(outp, len(lines))
+    return rc, obs, log
+
+
+def run_impl_twice(binary, lines, tag, timeout):
+    """A process that dies or times out is run once more before anything is reported: a crash that reproduces is an
+    observation about the code, one that does not (OOM killer, overloaded machine) is not."""
+    rc, obs, log = run_impl(binary, lines, tag, timeout)
+    if rc != 0 and any(o is None for o in obs):
+        C.log(f'C20: probe process {tag} ended with rc={rc}; running it once more')
+        rc2, obs2, log2 = run_impl(binary, lines, tag + '-again', timeout)
+        if rc2 == 0 or not any(o is None for o in obs2):
+            return rc2, obs2, log2
+        if rc == 124 and rc2 == 124:
+            raise C.Infra(f'probe process {tag} timed out twice ({timeout}s each): machine too slow, nothing concluded')
+        return rc2, obs2, log2
     return rc, obs, log
 
 
@@ -114,8 +135,10 @@ def gen_seq_line(rng, g, pristine, hist):
     if pristine:
         off = g['off']
     else:
-        m = rng.below(5)
-        off = mn if m == 0 else mx - rng.below(300) if m == 1 else mx if m == 2 else mn + rng.below(size + 1)
+        m = rng.below(6)
+        # m == 5: the pointer already beyond max (the permanent state after a lost race near exhaustion)
+        off = (mn if m == 0 else mx - rng.below(300) if m == 1 else mx if m == 2 else mx + 1 + rng.below(200) if m == 5
+               else mn + rng.below(size + 1))
     profile = rng.below(6)
     reqs = []
     cur = off
@@ -144,9 +167,16 @@ def gen_seq_line(rng, g, pristine, hist):
             kind = 'm'
             nm += 1
             n = rng.choice([1, 48, 48, 4095, 4096, 4097, 1 + rng.below(1 << 16), 1 + rng.below(1 << 20)])
+        elif r < 22:                                         # the real Acquire with new mappings denied (RLIMIT_AS): the fallback
+            kind = 'd'                                       # serves requests that fit, not only 0 and >= 2^47
+        elif r < 26:                                         # the whole int domain: negative lengths
+            kind = rng.choice(['h', 'f', 'd'])
+            n = -rng.choice([1, 8, 8, 48, 1 + rng.below(4096), max(cur - mn, 1), 1 << 40, (1 << 62) - rng.below(9)])
         reqs.append(f'{kind}{n}')
         hist['req_kind'][kind] = hist['req_kind'].get(kind, 0) + 1
-        if kind != 'm':
+        if n < 0:
+            extra += 0 if len(reqs) < 400 else 1
+        elif kind != 'm':
             if cur + n <= mx:
                 cur += n
             else:
@@ -163,8 +193,21 @@ def gen_crun_small(rng, g):
     per = []
     for _ in range(T):
         k = 1 + rng.below(3)
-        per.append(','.join(str(rng.choice([1, 8, 16, 48, 1 + rng.below(64), rem, rem + 1, max(rem // 2, 1)])) for _ in range(k)))
+        per.append(','.join(('a' if rng.below(8) == 0 else '') + str(rng.choice([1, 8, 16, 48, 1 + rng.below(64), rem, rem + 1, max(rem // 2, 1)]))
+                            for _ in range(k)))
     return f'c20.crun {mx - rem} {mn} {mx} stamps ' + '/'.join(per)
+
+
+def gen_crun_acquire(rng, g):
+    """Concurrent callers of the real Acquire on the primary path (mappings granted), mixed with reserve requesters."""
+    mn, mx = g['min'], g['max']
+    T = rng.choice([4, 8, 16])
+    k = 20 + rng.below(40)
+    per = []
+    for t in range(T):
+        mixed = rng.below(3) == 0
+        per.append(','.join(('' if mixed and rng.below(2) else 'a') + str(rng.choice([48, 48, 12, 24, 1 + rng.below(200)])) for _ in range(k)))
+    return f'c20.crun {mn} {mn} {mx} nostamps ' + '/'.join(per)
 
 
 def gen_crun_large(rng, g, tier, unit=None):
@@ -179,6 +222,13 @@ def gen_crun_large(rng, g, tier, unit=None):
     per = [','.join(str(lo + rng.below(hi - lo + 1)) for _ in range(k)) for _ in range(T)]
     off = mn if rng.below(4) else mn + rng.below(size // 2)
     return f'c20.crun {off} {mn} {mx} {"nostamps" if rng.below(2) else "stamps"} ' + '/'.join(per)
+
+
+def gen_owrite(rng, g):
+    """One write of dataLen bytes into a region of regionLen bytes: shorter, equal, and LONGER than the region."""
+    rl = rng.choice([1, 12, 16, 24, 48, 48, 64, 100, 1 + rng.below(1024)])
+    dl = rng.choice([0, rl, rl, max(rl - 1, 0), rl + 1, rl + 8, rl + rng.below(64), rng.below(rl + 1), 12, 24])
+    return f'c20.owrite {rng.choice(["m", "h"])} {rl} {min(dl, 4000)}'
 
 
 def gen_writes(rng, g):
@@ -213,7 +263,7 @@ def oracle_info(g):
     return bad
 
 
-_H = re.compile(r'^H\+(-?\d+):(\d+)((?:![a-z0-9-]+)*)$')
+_H = re.compile(r'^H\+(-?\d+):(-?\d+)((?:![a-z0-9-]+)*)$')
 _M = re.compile(r'^M:(\d+)((?:![a-z0-9-]+)*)$')
 
 
@@ -233,6 +283,11 @@ def oracle_seq(line, obs, g):
     regions = []
     for rq, r in zip(reqs, res):
         n = int(rq[1:])
+        if r == '!nil-and-err':
+            return f'request {rq}: Acquire returned neither a space nor an error (or both)', st
+        if n < 0 and r != 'E':
+            return (f'request {rq}: a negative length is not refused — observed {r}; the region has a negative length and the bump '
+                    f'pointer moves backwards, so later regions overlap earlier ones'), st
         if r == 'E':
             st['E'] += 1
             if rq[0] == 'm':
@@ -284,6 +339,31 @@ def oracle_writes(line, obs):
     return None
 
 
+def oracle_owrite(line, obs):
+    """A write through stub.Write stays inside the region it was given and stores all of the data, or is refused."""
+    if obs is None:
+        return 'no observation (the probe process died while running this line)'
+    if obs.startswith('env-mismatch') or obs == 'bad-op':
+        return None
+    _, path, rl, dl = line.split()
+    where = 'mmap' if path == 'm' else 'reserve'
+    if obs == 'fault':
+        return f'stub.Write of {dl} bytes into a {rl}-byte {where} region faulted'
+    if obs == 'err-but-wrote':
+        return f'stub.Write of {dl} bytes into a {rl}-byte {where} region returned an error but changed memory'
+    if obs == 'err':
+        if int(dl) <= int(rl):
+            return f'a {rl}-byte {where} region is not writable through stub.Write: {dl} bytes that fit were refused'
+        return None
+    kv = dict(x.split('=') for x in obs.split())
+    if int(kv['beyond']):
+        return (f'stub.Write of {dl} bytes into a {rl}-byte {where} region returned nil and overwrote {kv["beyond"]} bytes beyond the '
+                f'region (the neighbouring region\'s bytes)')
+    if int(kv['dropped']):
+        return f'stub.Write of {dl} bytes into a {rl}-byte {where} region returned nil but silently dropped {kv["dropped"]} bytes'
+    return None
+
+
 def oracle_cwrite(line, obs):
     """Writers that write only their own (disjoint) reserve regions must never fault, fail or lose their bytes."""
     st = {'writes': 0, 'shared_pages': 0}
@@ -302,19 +382,35 @@ def oracle_cwrite(line, obs):
 
 def parse_crun(line, obs):
     toks = line.split()
-    per = [[int(x) for x in p.split(',')] for p in toks[5].split('/')]
-    lens, thread = [], []
+    per = [p.split(',') for p in toks[5].split('/')]
+    lens, thread, via = [], [], []
     for t, p in enumerate(per):
-        lens += p
-        thread += [t] * len(p)
+        for x in p:
+            via.append(x.startswith('a'))
+            lens.append(int(x.lstrip('a')))
+            thread.append(t)
     ot = obs.split()
-    head = dict(x.split('=', 1) for x in ot[:2])
+    head = dict(x.split('=', 1) for x in ot if '=' in x and ':' not in x)
     recs = []
-    for x in ot[2:]:
-        i, r, res = x.split(':')
-        recs.append((int(i), int(r), res))
+    for x in ot:
+        if x.count(':') == 2:
+            i, r, res = x.split(':')
+            recs.append((int(i), int(r), res))
     return {'off': int(toks[1]), 'min': int(toks[2]), 'max': int(toks[3]), 'stamps': toks[4] == 'stamps', 'lens': lens, 'thread': thread,
-            'clobbered': int(head['clobbered']), 'final': int(head['off'][1:]), 'recs': recs, 'T': len(per)}
+            'via_acquire': via, 'clobbered': int(head['clobbered']), 'final': int(head['off'][1:]), 'recs': recs, 'T': len(per),
+            'sliceflaws': int(head.get('sliceflaws', 0)), 'mmapdup': int(head.get('mmapdup', 0))}
+
+
+def holder_history(h):
+    """The reserve's part of a concurrent history (requests answered with a mapping never touched the bump pointer)."""
+    keep = [i for i, r in enumerate(h['recs']) if r[2] != 'm']
+    if len(keep) == len(h['recs']):
+        return h
+    k = dict(h)
+    k['lens'] = [h['lens'][i] for i in keep]
+    k['recs'] = [h['recs'][i] for i in keep]
+    k['thread'] = [h['thread'][i] for i in keep]
+    return k
 
 
 def oracle_crun(line, obs, g=None):
@@ -332,11 +428,20 @@ def oracle_crun(line, obs, g=None):
     size = h['max'] - h['min']
     st['requests'] = len(h['lens'])
     regs = []
+    if h['mmapdup']:
+        return (f'{h["mmapdup"]} mappings handed out to concurrent callers of Acquire overlap another mapping or the reserve'), h, st
+    if h['sliceflaws']:
+        return f'{h["sliceflaws"]} concurrent requests received a slice that is not the returned region (start / length)', h, st
     for i, ((_, _, res), n) in enumerate(zip(h['recs'], h['lens'])):
         if res == 'e':
             st['err'] += 1
+            if h['via_acquire'][i] and 0 < n <= 1 << 20:
+                return f'request #{i}: Acquire({n}) failed although the kernel grants such mappings', h, st
             continue
         st['ok'] += 1
+        if res == 'm':
+            st['mapped'] = st.get('mapped', 0) + 1
+            continue
         a = int(res[1:])
         if a < 0 or a + n > size or (g is not None and (h['min'] + a < g['fentry'] or h['min'] + a + n > g['fend'])):
             return f'request #{i} (len {n}) got [{a},{a + n}) outside the reserve of {size} bytes', h, st
@@ -420,6 +525,10 @@ def plan(tier, rng, g, widen, hist):
             lines.append(gen_crun_small(rng, g))
         for _ in range(12 if tier == 'quick' else 60):
             lines.append(gen_writes(rng, g))
+        for _ in range(25 if tier == 'quick' else 150):
+            lines.append(gen_owrite(rng, g))
+        for _ in range(2 if tier == 'quick' else 10):
+            lines.append(gen_crun_acquire(rng, g))
         for _ in range(4 if tier == 'quick' else 8):
             lines.append(gen_cwrite(rng, g, tier))
         for k in range(nlarge):
@@ -441,6 +550,10 @@ def corpus_lines(g):
         f'c20.seq {mn} {mn} {mx} f{1 << 62} f{(1 << 62) - 1} h48 m1 m4096',
         f'c20.crun {mn} {mn} {mx} nostamps ' + '/'.join([','.join(['1'] * 300)] * 16),   # F12: 1-byte requests, 16 requesters
         f'c20.crun {mx - 100} {mn} {mx} stamps 48,48/48,48/48,48',
+        f'c20.seq {mn} {mn} {mx} h48 f-8 h48 h-1 d-48 h48',                                        # F27: negative length rewinds the pointer
+        f'c20.seq {mn} {mn} {mx} d48 d48 d{size} d48 d0 d1',                                       # Acquire's fallback with requests that fit
+        'c20.owrite h 16 24', 'c20.owrite m 16 24', 'c20.owrite h 48 12', 'c20.owrite m 48 24',    # F28: Write ignores the region length
+        f'c20.crun {mn} {mn} {mx} nostamps ' + '/'.join([','.join(['a48'] * 40)] * 8),             # concurrent Acquire on the primary path
         'c20.writes m 48 4', 'c20.writes h 48 4', 'c20.writes m 4097 2', 'c20.writes h 5000 3',   # seed c20-4: second write to a mapping
         f'c20.cwrite {mn} {mn} {mx} 8 2 48 {3000 if True else 0}',                                   # seed c20-2: writers on shared pages
     ]
@@ -454,6 +567,8 @@ def quick_scan(lines, obs, g):
         if line.startswith('c20.crun') and oracle_crun(line, o, g)[0]:
             return True
         if line.startswith('c20.writes') and oracle_writes(line, o):
+            return True
+        if line.startswith('c20.owrite') and oracle_owrite(line, o):
             return True
         if line.startswith('c20.cwrite') and oracle_cwrite(line, o)[0]:
             return True
@@ -489,7 +604,7 @@ def run(tier):
     all_lines, all_obs = [], []
     crashed = False
     for p, lines in enumerate(procs):
-        rc, obs, log = run_impl(binary, lines, f'c20-p{p}', timeout=900 if tier == 'quick' else 3000)
+        rc, obs, log = run_impl_twice(binary, lines, f'c20-p{p}', 1800 if tier == 'quick' else 7200)
         if rc != 0 and classify_crash(out, f'c20-p{p}', lines, obs, log):
             crashed = True
         all_lines += lines
@@ -525,6 +640,11 @@ def run(tier):
                         distinct.add((rq, r))
             if why:
                 bad.append((line, why, obs))
+        elif line.startswith('c20.owrite'):
+            stats['length_mismatched_writes'] = stats.get('length_mismatched_writes', 0) + 1
+            why = oracle_owrite(line, obs)
+            if why:
+                bad.append((line, why, obs))
         elif line.startswith('c20.writes'):
             stats['write_histories'] = stats.get('write_histories', 0) + 1
             stats['writes_sequential'] = stats.get('writes_sequential', 0) + int(line.split()[3])
@@ -556,15 +676,30 @@ def run(tier):
             if why:
                 bad.append((line, why, obs))
             elif h is not None:
-                crun.append((line, h, short))
+                stats['conc_requests_via_acquire'] = stats.get('conc_requests_via_acquire', 0) + st.get('mapped', 0)
+                if holder_history(h)['lens']:
+                    crun.append((line, holder_history(h), short))
     bad.sort(key=lambda b: len(b[0]))          # smallest failing history first
+    # floors: a lane that silently ran nothing must not pass (machinery error, exit 2 — not a statement about the property)
+    if not bad and not crashed:
+        total = len(all_lines)
+        if stats['env_mismatch'] * 10 > total:
+            raise C.Infra(f'{stats["env_mismatch"]} of {total} histories could not be run as generated (env-mismatch: reserve geometry, '
+                          f'kernel answers or RLIMIT_AS differ from what the generator assumed); nothing concluded')
+        need = {'seq_histories': 50, 'seq_requests': 2000, 'conc_histories_short': 50, 'conc_histories_long': 5, 'conc_requests': 5000,
+                'write_histories': 5, 'length_mismatched_writes': 10, 'concurrent_writer_runs': 2, 'conc_requests_via_acquire': 100}
+        low = {k: stats.get(k, 0) for k, v in need.items() if stats.get(k, 0) < v}
+        if stats['M'] < 20 or stats['H'] < 500 or stats['E'] < 50:
+            low['sequential outcomes H/M/E'] = (stats['H'], stats['M'], stats['E'])
+        if low:
+            raise C.Infra(f'lanes below their floor (generated but not evaluated): {low}')
     for line, why, obs in bad[:3]:
         short_line = line if len(line) < 4000 else line[:4000] + '…'
         out.violation(f'{why}  [{short_line[:160]}]', {'kind': 'impl-oracle', 'ops': [line], 'observed': (obs or '')[:4000], 'why': why,
                                                        'how': 'python3 check.py C20 --replay <this file>  (concurrent histories are re-run up to 30 times)'})
 
     # 2. correspondence: differential run of the sequential histories, trace validation of the concurrent ones
-    seq_idx = [i for i, l in enumerate(all_lines) if l.startswith(('c20.seq', 'c20.writes')) and all_obs[i] is not None and not all_obs[i].startswith('env-mismatch')]
+    seq_idx = [i for i, l in enumerate(all_lines) if l.startswith(('c20.seq', 'c20.writes', 'c20.owrite')) and all_obs[i] is not None and not all_obs[i].startswith('env-mismatch')]
     mlines = [all_lines[i].replace('pristine:', '') for i in seq_idx]
     vlines, vsrc = [], []
     budget = {'short': 500 if tier == 'quick' else 12000, 'long': 26 if tier == 'quick' else 250, 'skipped': 0}
@@ -598,7 +733,14 @@ def run(tier):
             else:
                 diffs.append((vsrc[k], 'observed history: ' + v[:3000], ans))
     if not bad and not crashed:
-        if diffs:
+        if not ok:
+            # the extractor rejected the source: Gen/StubHolder.lean on disk is not a translation of THIS tree, so a
+            # difference between model and implementation means nothing; the broken obligation is the translation itself
+            out.violation(f'tools/genstub cannot translate the current source ({msg}) — the model no longer describes the code — and the '
+                          'widened search found no failing input',
+                          {'kind': 'translator', 'broken': proof['failed'], 'searched_requests': stats['seq_requests'] + stats['conc_requests']},
+                          no_failing_input=True)
+        elif diffs:
             line, a, b = diffs[0]
             out.violation(f'model and implementation disagree on `{line[:160]}`',
                           {'kind': 'correspondence', 'ops': [line], 'impl': a[:4000], 'model': b[:4000],
@@ -654,6 +796,13 @@ def replay(body):
                 rc_all = 1
             else:
                 print(f'{line[:200]}\n  {runs} runs: property holds on every observed history')
+        elif line.startswith('c20.owrite'):
+            rc, obs, log = run_impl(binary, [line], 'c20-replay', timeout=300)
+            why = oracle_owrite(line, obs[0])
+            model, _ = run_model([line], 'c20-replay')
+            print(f'{line}\n  impl : {obs[0]}\n  model: {model[0] if model else ""}\n  oracle: {why or "ok"}')
+            if why or (model and obs[0] and not obs[0].startswith('env-mismatch') and model[0] != obs[0]):
+                rc_all = 1
         elif line.startswith('c20.writes'):
             rc, obs, log = run_impl(binary, [line], 'c20-replay', timeout=300)
             why = oracle_writes(line, obs[0])
